@@ -23,19 +23,17 @@ Proof. exact step_one_response. Qed.
 Print Assumptions C02_serversm_one_response_each.
 
 (* ---- the session state reported by the API = the RFC 2326 machine ---- *)
-(* For every configuration (handler subset, transports), every reachable or unreachable server state and
-   every request: the vector of session states after the request is the vector before it with the RFC
-   transition applied to the one session the request reached (a session created by the request starts in
-   Initial); the transition moves the state only if the request is legal in the current state and was
-   answered 200 (so only a 200 handler verdict moves it, and OPTIONS / GET_PARAMETER / SET_PARAMETER /
-   DESCRIBE / TEARDOWN never change a state).  Premise: the request is not a RECORD whose UDP start fails
-   (refuted without it, see below). *)
-Theorem C02_serversm_refines_rfc2326_partial : forall cf sv r sv' rp evs,
+(* For every configuration (handler subset, transports), every server state and every request: the vector
+   of session states after the request is the vector before it with the RFC transition applied to the one
+   session the request reached (a session created by the request starts in Initial); the transition moves
+   the state only if the request is legal in the current state and was answered 200 (so only a 200 handler
+   verdict moves it, a failed request never does, and OPTIONS / GET_PARAMETER / SET_PARAMETER / DESCRIBE /
+   TEARDOWN never change a state). *)
+Theorem C02_serversm_refines_rfc2326 : forall cf sv r sv' rp evs,
   step cf sv r = Done sv' rp evs ->
-  no_start_failure cf sv r ->
   pst sv' = rfc_vec (pst sv) (target cf sv r) (rmeth r) (status_of rp).
 Proof. exact step_refines. Qed.
-Print Assumptions C02_serversm_refines_rfc2326_partial.
+Print Assumptions C02_serversm_refines_rfc2326.
 
 (* A request that is illegal in the current state of the session it reaches is answered 400, and the
    session record is left exactly as it was (state, transport, medias, path, pin). *)
@@ -46,22 +44,16 @@ Theorem C02_serversm_illegal_rejected_unchanged : forall cf o c r s s' status e,
 Proof. exact handle_illegal. Qed.
 Print Assumptions C02_serversm_illegal_rejected_unchanged.
 
-(* The full statement is false of the code: a reachable state, a RECORD that is legal in it and accepted
-   by the application, answered 400, after which the session is in state Record, alive, without any
-   connection, streaming over UDP, with its check timer not armed (so it is never expired), no lifecycle
-   event.  server_session.go:1342-1358 sets the state before the media start loop and returns from inside
-   the loop, before the timer is armed (:1368). *)
-Theorem C02_serversm_refines_rfc2326_refuted :
+(* Regression (defect fixed by /repo ba05e77; the old witness is in history/): ANNOUNCE ; SETUP with
+   client_port=0-1 ; RECORD, whose firewall-opening UDP write fails: answered 400, the session is still in
+   PreRecord, and -- its connection being closed for the error -- it is ended at once. *)
+Theorem C02_serversm_record_start_failure_leaves_state :
   exists sv' rp evs,
     step cf_all w_before w_record = Done sv' (Some rp) evs /\
-    target cf_all w_before w_record = Some 0 /\
-    pst w_before = [PreRecord] /\ Rfc2326.allowed PreRecord RecordM = true /\
-    rstatus rp = 400 /\ pst sv' = [Record] /\
-    (exists s, nnth 0 (sessions sv') = Some s /\ salive s = true /\ sconns s = [] /\
-               udp_streaming s = true /\ stimer s = false) /\
-    conn_open sv' 0 = false /\ evs = [].
-Proof. exact record_start_failure_witness. Qed.
-Print Assumptions C02_serversm_refines_rfc2326_refuted.
+    rstatus rp = 400 /\ pst w_before = [PreRecord] /\ pst sv' = [PreRecord] /\
+    alv sv' = [false] /\ evs = [EvEnd 0 2].
+Proof. exact record_start_failure_regression. Qed.
+Print Assumptions C02_serversm_record_start_failure_leaves_state.
 
 (* ---- no sequence crashes or hangs the server ---- *)
 (* From any state satisfying the invariant every request is handled to completion (no nil dereference:
@@ -108,15 +100,15 @@ Theorem C02_serversm_unused_sessions_are_ended : forall sv k s,
 Proof. exact unused_sessions_are_ended. Qed.
 Print Assumptions C02_serversm_unused_sessions_are_ended.
 
-(* The UDP check timer is armed exactly while a session streams over UDP -- as long as no RECORD start
-   failure happens (that is the refuted case above). *)
-Theorem C02_serversm_timer_armed_partial : forall cf sv r sv' rp evs,
+(* The UDP check timer is armed exactly while a session streams over UDP (with the per-session invariant):
+   holds of a fresh session and is preserved by every request; together with silent_peer_expired below,
+   every session streaming over UDP whose peer goes silent is expired. *)
+Theorem C02_serversm_timer_armed : forall cf sv r sv' rp evs,
   step cf sv r = Done sv' rp evs ->
-  no_start_failure cf sv r ->
   (forall k s, nnth k (sessions sv) = Some s -> salive s = true -> sess_ok s /\ tm_ok s) ->
   forall k s', nnth k (sessions sv') = Some s' -> salive s' = true -> sess_ok s' /\ tm_ok s'.
 Proof. exact step_timer_armed. Qed.
-Print Assumptions C02_serversm_timer_armed_partial.
+Print Assumptions C02_serversm_timer_armed.
 
 (* ---- timeouts: a live peer is never expired, a silent one is expired within timeout + one period ---- *)
 (* F14: from IdleTimeout = 2 s up, the timeout the server advertises does not exceed the one it enforces
